@@ -79,3 +79,13 @@ func (w *World) OIDForHRW(label string, want []int) oid.ID {
 	}
 	panic("engineworld: no object ID with the wanted HRW order")
 }
+
+// Detach removes the given shards (world indexes) from the engine and closes them; their
+// directories stay until Close. The engine then serves from the remaining shards only.
+func (w *World) Detach(idx ...int) {
+	ids := make([]string, len(idx))
+	for i, x := range idx {
+		ids[i] = w.Shards[x].ID.String()
+	}
+	w.Eng.VerifRemoveShards(ids...)
+}
